@@ -258,28 +258,49 @@ def analyse(case):
         re_kind, renorm = case["re_kind"], bool(case["renorm"])
         jcfm, jcf = build_re(case, re_kind, renorm)
         pos2 = latent(case, jcf)
-        J = jac_re(jcf, pos2)
+        # one compiled call: Jacobian with respect to the excitations and every internal quantity that is compared
+        jax = E["jax"]
+        nonparam = case["kind"] == "nonparam"
+
+        def everything(p):
+            def f(xi):
+                q = dict(p)
+                q["xi"] = xi
+                return jcf(q).reshape(-1)
+            per = []
+            for amp in jcfm._fluctuations:
+                d = dict(amp=amp(p))
+                if nonparam:
+                    d["flu"] = amp.fluctuations(p)
+                    d["slope"] = amp._loglogavgslope(p)
+                    if amp._deviations is not None:
+                        d["dev"] = amp._deviations(p)
+                else:
+                    d["flu"] = amp.scale(p)
+                per.append(d)
+            return jax.jacfwd(f)(p["xi"]), jcfm.azm(p), per
+        Jx, azm, per = jax.jit(everything)(pos2)
+        J = np.array(Jx)
+        J = J.reshape(J.shape[0], -1)
         out["re"] = dict(realised=realised(case, J), kind=re_kind, renorm=renorm)
-        azm2 = float(jcall(jcfm.azm, pos2)) ** 2
+        azm2 = float(azm) ** 2
         out["re"]["azm2"] = azm2
         sps = []
-        for i, (amp, grid) in enumerate(zip(jcfm._fluctuations, jcfm._target_grids)):
-            a = np.array(jcall(amp, pos2), dtype=float).reshape(-1)
+        for i, (d, grid) in enumerate(zip(per, jcfm._target_grids)):
+            a = np.array(d["amp"], dtype=float).reshape(-1)
             hg = grid.harmonic_grid
             mult = np.array(hg.mode_multiplicity, dtype=float)
             V = float(grid.total_volume)
             spec = None
-            if case["kind"] == "nonparam":
-                flu2 = float(jcall(amp.fluctuations, pos2)) ** 2
+            flu2 = float(d["flu"]) ** 2
+            if nonparam:
                 rel = np.array(hg.relative_log_mode_lengths)
-                ln = np.array(jcall(amp._loglogavgslope, pos2)) * rel
-                if amp._deviations is not None:
-                    tw = np.array(jcall(amp._deviations, pos2))
+                ln = np.array(d["slope"]) * rel
+                if "dev" in d:
+                    tw = np.array(d["dev"])
                     tw = np.concatenate((np.zeros(1), tw[:, 0]))
                     ln = ln + (tw - tw[-1] * rel / rel[-1])
                 spec = [float(x) for x in np.exp(ln)[1:]]
-            else:
-                flu2 = float(jcall(amp.scale, pos2)) ** 2
             sps.append(dict(V=V, flu2=flu2, mult=[float(x) for x in mult[1:]], amp2=[float(x) ** 2 for x in a[1:]], zero=float(a[0]),
                             spec=spec, kind=re_kind))
         out["re"]["spaces"] = sps
@@ -435,7 +456,7 @@ def load_corpus():
 
 def run(ctx):
     cases = load_corpus()
-    for _ in range(ctx.n(12, 160)):
+    for _ in range(ctx.n(9, 160)):
         cases.append(gen_case(ctx.rng))
     reqs, metas = [], []
     for c in cases:
